@@ -127,7 +127,11 @@ func (vc *VC) globalDecls() string {
 			for _, srt := range d.Sorts {
 				ps = append(ps, sortByName(srt).SMT())
 			}
-			fmt.Fprintf(&sb, "(declare-fun spec.%s (%s) Bool)\n", n, strings.Join(ps, " "))
+			res := "Bool"
+			if d.IntResult {
+				res = "Int"
+			}
+			fmt.Fprintf(&sb, "(declare-fun spec.%s (%s) %s)\n", n, strings.Join(ps, " "), res)
 		}
 		for _, n := range names {
 			d := vc.cs.Defs[n]
@@ -503,6 +507,9 @@ func (r *Runner) Run(scripts []*Script) []*ObResult {
 				per = chunkMax
 			}
 		}
+		if sc.Con != nil && sc.Con.Chunk > 0 && per > sc.Con.Chunk {
+			per = sc.Con.Chunk
+		}
 		for i := 0; i < len(insts); i += per {
 			j := i + per
 			if j > len(insts) {
@@ -611,7 +618,7 @@ func (r *Runner) runJob(header string, sc *Script, insts [][]int, base int, only
 	}
 	run := func(sel []int, batch bool) (map[[2]int]rawResult, string, error, time.Duration, int) {
 		to := r.TimeoutMs
-		if ninst > 100 && to > 3000 {
+		if ninst > 100 && to > 3000 && !(sc.Con != nil && sc.Con.NoBatch) {
 			to = 3000 // split instances are small queries; the individual retry uses the full timeout
 		}
 		if batch {
@@ -650,7 +657,7 @@ func (r *Runner) runJob(header string, sc *Script, insts [][]int, base int, only
 	for i := range insts {
 		all[i] = i
 	}
-	got, out, err, el, nraw := run(all, true)
+	got, out, err, el, nraw := run(all, !(sc.Con != nil && sc.Con.NoBatch))
 	// instances with an unrefuted batch are re-run one obligation at a time
 	redo := map[int]bool{}
 	for k, rr := range got {
